@@ -147,6 +147,11 @@ class ScalarFunction:
                 self.g = approx_derivative(
                     fun_wrapped, self.x, f0=self.f, **finite_diff_options
                 )
+                # A variable with lb == ub leaves no room for a difference step:
+                # approx_derivative returns nan for it. Such a variable never
+                # moves and its derivative plays no role: report zero.
+                lb, ub = finite_diff_bounds
+                self.g = np.where(np.asarray(lb) == np.asarray(ub), 0.0, self.g)
 
         self._update_grad_impl = update_grad
 
